@@ -3,13 +3,16 @@ module verifsim
 go 1.26.8
 
 require (
+	github.com/alicebob/miniredis/v2 v2.34.0
 	github.com/anishathalye/porcupine v1.3.0
+	github.com/redis/go-redis/v9 v9.7.3
 	github.com/zeromicro/go-zero v0.0.0
 	google.golang.org/grpc v1.65.0
 )
 
 require (
 	filippo.io/edwards25519 v1.1.0 // indirect
+	github.com/alicebob/gopher-json v0.0.0-20230218143504-906a9b012302 // indirect
 	github.com/beorn7/perks v1.0.1 // indirect
 	github.com/cenkalti/backoff/v4 v4.3.0 // indirect
 	github.com/cespare/xxhash/v2 v2.3.0 // indirect
@@ -49,8 +52,8 @@ require (
 	github.com/prometheus/client_model v0.6.1 // indirect
 	github.com/prometheus/common v0.62.0 // indirect
 	github.com/prometheus/procfs v0.15.1 // indirect
-	github.com/redis/go-redis/v9 v9.7.3 // indirect
 	github.com/spaolacci/murmur3 v1.1.0 // indirect
+	github.com/yuin/gopher-lua v1.1.1 // indirect
 	go.etcd.io/etcd/api/v3 v3.5.15 // indirect
 	go.etcd.io/etcd/client/pkg/v3 v3.5.15 // indirect
 	go.etcd.io/etcd/client/v3 v3.5.15 // indirect
@@ -93,3 +96,6 @@ require (
 )
 
 replace github.com/zeromicro/go-zero => /repo
+
+// go-redis with internal/rand drawing from the simulation tape (see third_party/README.md)
+replace github.com/redis/go-redis/v9 => ./third_party/go-redis-v9.7.3
